@@ -24,7 +24,28 @@ class D(State):
     v: int = 5
 
 
-TYPES = [A, B, D]
+class K(State):                # values that differ and print the same: K(v=1) / K(v="1")
+    v: int | str = 0
+
+
+def _twin():
+    class A(State):            # a second class called `A`: same name, same printed form, different type
+        v: int = 0
+    return A
+
+
+A2 = _twin()
+TYPES = [A, B, D, K, A2]
+
+
+def make(rng, lo, hi):
+    """a state instance; half of the values come from a tiny domain, so that different tasks often supply equal-but-not-
+    identical (or merely same-printing) instances - what a task sees is *its own* instance, an identity"""
+    T = rng.choice(TYPES)
+    v = rng.choice((1, 1, 2, rng.randint(lo, hi)))
+    if T is K and rng.random() < 0.5:
+        v = str(v)
+    return T(v=v)
 
 
 def lookup_ok(env, problems, who):
@@ -68,7 +89,7 @@ async def program(rng, env, depth, problems, who, children, budget):
         return
     for _ in range(rng.randint(1, 2)):
         kind = rng.choice(["scope", "ascope", "updated", "spawn", "task", "handoff", "adisp"])
-        supplied = [rng.choice(TYPES)(v=rng.randint(1, 999)) for _ in range(rng.randint(0, 2))]
+        supplied = [make(rng, 1, 999) for _ in range(rng.randint(0, 2))]
         frame = {type(s): s for s in supplied}
         if kind == "handoff":
             # a scope object made by this task inside a private update, entered by a child that was started before it:
@@ -95,7 +116,7 @@ async def program(rng, env, depth, problems, who, children, budget):
                 lookup_ok(snap, problems, name)
             children.append(ctx.spawn(receiver) if rng.random() < 0.5 else asyncio.ensure_future(receiver()))
             await asyncio.sleep(0)
-            private = [rng.choice(TYPES)(v=rng.randint(1000, 1999)) for _ in range(rng.randint(1, 2))]
+            private = [make(rng, 1000, 1999) for _ in range(rng.randint(1, 2))]
             with ctx.updated(*private):
                 fut.set_result(ctx.scope("job", *supplied))
                 await asyncio.sleep(0)
